@@ -196,6 +196,7 @@ package types
 //@ func NewPattern
 //@   nosafety
 //@ func (Pattern) Match
+//@   pure
 //@   loop 1.1
 //@     invariant 0 <= i
 
@@ -267,3 +268,61 @@ package types
 //@ lemma C11 eq_extensional_scalar dispatch Value.Equal: forall a Value, b Value :: (isScalarV(a) && valEq(a, b)) ==> a == b
 //@ lemma C11 eq_same_type dispatch Value.Equal: forall a Value, b Value :: (a != nil && valEq(a, b)) ==> sameType(a, b)
 //@ lemma C11 eq_collisions dispatch Value.Equal: !valEq(Value(Boolean(true)), Value(Long(1))) && !valEq(Value(Long(1)), Value(Decimal(1))) && !valEq(Value(Duration(1)), Value(Datetime(1))) && !valEq(Value(Long(1)), Value(Duration(1)))
+
+// ------------------------------------------------- sorted emission (C14)
+// Marshalling a record or a set walks a sorted list of exactly its keys /
+// slots, so the bytes do not depend on Go's map iteration order.
+//@ spec func inKeys(ks []String, k String) bool = exists i int :: 0 <= i && i < len(ks) && ks[i] == k
+//@ spec func inSlots(ks []uint64, k int) bool = exists i int :: 0 <= i && i < len(ks) && ks[i] == k
+//@ func (Record) MarshalJSON
+//@   props C14
+//@   assert after "slices.Sort(keys)" sorted: forall i int, j int :: (0 <= i && i < j && j < len(keys)) ==> !less(keys[j], keys[i])
+//@   assert after "slices.Sort(keys)" complete: forall k String :: inKeys(keys, k) == has(r.m, k)
+//@ func (Record) MarshalCedar
+//@   props C14
+//@   assert after "slices.Sort(keys)" sorted: forall i int, j int :: (0 <= i && i < j && j < len(keys)) ==> !less(keys[j], keys[i])
+//@   assert after "slices.Sort(keys)" complete: forall k String :: inKeys(keys, k) == has(r.m, k)
+//@ func (Set) MarshalJSON
+//@   props C14
+//@   assert after "slices.Sort(orderedKeys)" sorted: forall i int, j int :: (0 <= i && i < j && j < len(orderedKeys)) ==> !less(orderedKeys[j], orderedKeys[i])
+//@   assert after "slices.Sort(orderedKeys)" complete: forall k int :: inSlots(orderedKeys, k) == has(s.s, k)
+//@ func (Set) MarshalCedar
+//@   props C14
+//@   assert after "slices.Sort(orderedKeys)" sorted: forall i int, j int :: (0 <= i && i < j && j < len(orderedKeys)) ==> !less(orderedKeys[j], orderedKeys[i])
+//@   assert after "slices.Sort(orderedKeys)" complete: forall k int :: inSlots(orderedKeys, k) == has(s.s, k)
+
+// ------------------------------------------- observers used by the evaluator
+//@ func (Record) Get
+//@   props C11
+//@   pure
+//@   results v, ok
+//@   ensures ok == has(r.m, s)
+//@   ensures ok ==> v == r.m[s]
+//@ func (Record) Len
+//@   props C11
+//@   pure
+//@   results n
+//@   ensures n == len(r.m)
+//@ func NewRecord
+//@   props C11
+//@   pure
+//@   results rec
+//@   ensures forall k String :: has(rec.m, k) == has(m, k)
+//@   ensures forall k String :: has(m, k) ==> rec.m[k] == m[k]
+//@   ensures len(rec.m) == len(m)
+//@ func (Set) Len
+//@   props C11
+//@   pure
+//@   results n
+//@   ensures n == len(s.s)
+// NewSet, Set.Contains: membership up to Equal (the open-addressing core is
+// covered separately, see DESIGN.md C11).
+//@ func NewSet
+//@   pure
+//@   trusted
+//@   results s
+//@   ensures forall x Value :: s.Contains#0(x) == (exists i int :: 0 <= i && i < len(v) && x.Equal#0(v[i]))
+//@ func (IPAddr) Contains
+//@   pure
+//@   trusted
+//@   results r
